@@ -1,9 +1,14 @@
 /-
-Proofs for C03, type equality under binders: the level discipline of `lubEq` decides exactly
-equality of the nameless forms.  The key observation is that the context reached below a stack of
-binders is a function of that stack (`mk`), and that looking an identity up in it returns the level
-of its first (innermost) occurrence, which is what `List.idxOf?` computes for `toDB`.
-The general statement (`lubEq_iff_toDB`) needs no naming discipline at all.
+Proofs for C03, type equality under binders and of structural declarations: the level discipline
+of `lubEq` together with its by-name comparison of arms decides exactly equality of the nameless
+forms.  Two observations: (1) the context reached below a stack of binders is a function of that
+stack (`mk`), and looking an identity up in it returns the level of its first (innermost)
+occurrence, which is what `List.idxOf?` computes for `toDB`; (2) a declaration without repeated
+names is a finite map from names to types, the loop of the code establishes agreement of the two
+maps (equal number of arms + every left name found on the right + no repeated names = same set of
+names), and the sorted nameless form of a declaration is a normal form of that map.
+The statement under binders (`lubEq_iff_toDB`) needs no naming discipline for variables; it needs
+`WF` (no repeated names) on both sides.
 -/
 import ZV.Props.C03LubStatements
 
@@ -76,67 +81,432 @@ theorem var_case (envL envR : List Nat) (h : envL.length = envR.length) (a b : N
       simp
       omega
 
+/-! ### declarations as finite maps -/
+
+theorem Arms.names_eq_map : ∀ as : Arms, as.names = as.toList.map (·.1)
+  | .nil => rfl
+  | .cons n t rest => by simp [Arms.names, Arms.toList, Arms.names_eq_map rest]
+
+theorem Arms.length_eq : ∀ as : Arms, as.length = as.names.length
+  | .nil => rfl
+  | .cons n t rest => by simp [Arms.names, Arms.length, Arms.length_eq rest]
+
+theorem Arms.get_eq_none : ∀ (as : Arms) (m : Nat), as.get m = none ↔ m ∉ as.names
+  | .nil, m => by simp [Arms.get, Arms.names]
+  | .cons n t rest, m => by
+    have ih := Arms.get_eq_none rest m
+    simp only [Arms.get, Arms.names]
+    split <;> simp_all
+
+theorem Arms.mem_of_get : ∀ (as : Arms) (m : Nat) (t : Ty), as.get m = some t → (m, t) ∈ as.toList
+  | .nil, m, t => by simp [Arms.get]
+  | .cons n u rest, m, t => by
+    have ih := Arms.mem_of_get rest m t
+    simp only [Arms.get, Arms.toList]
+    split
+    · intro h; simp_all
+    · intro h; simp [ih h]
+
+theorem Arms.mem_names_of_mem {as : Arms} {m : Nat} {t : Ty} (h : (m, t) ∈ as.toList) : m ∈ as.names := by
+  rw [Arms.names_eq_map]
+  exact List.mem_map.2 ⟨(m, t), h, rfl⟩
+
+theorem Arms.get_of_mem : ∀ (as : Arms) (m : Nat) (t : Ty), as.names.Nodup → (m, t) ∈ as.toList →
+    as.get m = some t
+  | .nil, m, t => by simp [Arms.toList]
+  | .cons n u rest, m, t => by
+    intro hn hm
+    have ih := Arms.get_of_mem rest m t
+    simp only [Arms.names, List.nodup_cons] at hn
+    simp only [Arms.toList, List.mem_cons, Prod.mk.injEq] at hm
+    simp only [Arms.get]
+    rcases hm with ⟨rfl, rfl⟩ | hm
+    · simp
+    · have : m ≠ n := fun e => hn.1 (e ▸ Arms.mem_names_of_mem hm)
+      simp [this, ih hn.2 hm]
+
+theorem Arms.toList_ofList : ∀ l : List (Nat × Ty), (Arms.ofList l).toList = l
+  | [] => rfl
+  | (n, t) :: rest => by simp [Arms.ofList, Arms.toList, Arms.toList_ofList rest]
+
+theorem WFArms_iff : ∀ as : Arms, WFArms as = true ↔ as.names.Nodup ∧ ∀ p ∈ as.toList, WF p.2 = true
+  | .nil => by simp [WFArms, Arms.names, Arms.toList]
+  | .cons n t rest => by
+    have ih := WFArms_iff rest
+    simp only [WFArms, Arms.names, Arms.toList, Bool.and_eq_true, ih, List.nodup_cons,
+      List.mem_cons, forall_eq_or_imp]
+    simp
+    constructor
+    · rintro ⟨⟨h1, h2⟩, h3, h4⟩; exact ⟨⟨h1, h3⟩, h2, h4⟩
+    · rintro ⟨⟨h1, h3⟩, h2, h4⟩; exact ⟨⟨h1, h2⟩, h3, h4⟩
+
+theorem WF_of_get {as : Arms} {m : Nat} {t : Ty} (h : WFArms as = true) (hg : as.get m = some t) :
+    WF t = true :=
+  ((WFArms_iff as).1 h).2 (m, t) (Arms.mem_of_get as m t hg)
+
+theorem DBArms.get_insert (n : Nat) (d : DB) : ∀ (ds : DBArms) (m : Nat),
+    (DBArms.insert n d ds).get m = if m = n then some d else ds.get m
+  | .nil, m => by simp [DBArms.insert, DBArms.get]
+  | .cons k e rest, m => by
+    have ih := DBArms.get_insert n d rest m
+    simp only [DBArms.insert]
+    split
+    · simp [DBArms.get]
+    · simp only [DBArms.get, ih]
+      rename_i hle
+      by_cases h1 : m = k
+      · have h2 : ¬ m = n := by omega
+        simp [h1]
+        intro h3; omega
+      · simp [h1]
+
+theorem DBArms.mem_names_insert (n : Nat) (d : DB) : ∀ (ds : DBArms) (m : Nat),
+    m ∈ (DBArms.insert n d ds).names ↔ m = n ∨ m ∈ ds.names
+  | .nil, m => by simp [DBArms.insert, DBArms.names]
+  | .cons k e rest, m => by
+    have ih := DBArms.mem_names_insert n d rest m
+    simp only [DBArms.insert]
+    split
+    · simp [DBArms.names]
+    · simp only [DBArms.names, List.mem_cons, ih]
+      constructor
+      · rintro (h | h | h) <;> simp [h]
+      · rintro (h | h | h) <;> simp [h]
+
+theorem DBArms.get_eq_none : ∀ (ds : DBArms) (m : Nat), ds.get m = none ↔ m ∉ ds.names
+  | .nil, m => by simp [DBArms.get, DBArms.names]
+  | .cons n t rest, m => by
+    have ih := DBArms.get_eq_none rest m
+    simp only [DBArms.get, DBArms.names]
+    split <;> simp_all
+
+/-- names strictly increasing -/
+def DBArms.Sorted : DBArms → Prop
+  | .nil => True
+  | .cons n _ rest => (∀ m ∈ rest.names, n < m) ∧ rest.Sorted
+
+theorem DBArms.sorted_insert (n : Nat) (d : DB) : ∀ (ds : DBArms), ds.Sorted → n ∉ ds.names →
+    (DBArms.insert n d ds).Sorted
+  | .nil => by simp [DBArms.insert, DBArms.Sorted, DBArms.names]
+  | .cons k e rest => by
+    intro hs hn
+    have ih := DBArms.sorted_insert n d rest hs.2
+    simp only [DBArms.names, List.mem_cons, not_or] at hn
+    simp only [DBArms.insert]
+    split
+    · rename_i hle
+      refine ⟨?_, hs⟩
+      intro m hm
+      simp only [DBArms.names, List.mem_cons] at hm
+      rcases hm with rfl | hm
+      · omega
+      · have := hs.1 m hm; omega
+    · rename_i hle
+      refine ⟨?_, ih hn.2⟩
+      intro m hm
+      rcases (DBArms.mem_names_insert n d rest m).1 hm with rfl | hm
+      · omega
+      · exact hs.1 m hm
+
+/-- two declarations with strictly increasing names that agree as maps are equal -/
+theorem DBArms.ext : ∀ (ds es : DBArms), ds.Sorted → es.Sorted → (∀ m, ds.get m = es.get m) → ds = es
+  | .nil, .nil => by simp
+  | .nil, .cons k e s => by
+    intro _ _ h
+    have := h k
+    simp [DBArms.get] at this
+  | .cons n d r, .nil => by
+    intro _ _ h
+    have := h n
+    simp [DBArms.get] at this
+  | .cons n d r, .cons k e s => by
+    intro hd he h
+    have hnr : n ∉ r.names := fun hm => Nat.lt_irrefl _ (hd.1 n hm)
+    have hks : k ∉ s.names := fun hm => Nat.lt_irrefl _ (he.1 k hm)
+    have hnk : n = k := by
+      have h1 := h n
+      have h2 := h k
+      simp only [DBArms.get, if_true] at h1 h2
+      by_cases hnk : n = k
+      · exact hnk
+      · have hkn : ¬ k = n := fun e => hnk e.symm
+        simp only [hnk, hkn, if_false] at h1 h2
+        -- n occurs in s and k occurs in r
+        have hn : n ∈ s.names := by
+          apply Classical.byContradiction; intro hc
+          rw [(DBArms.get_eq_none s n).2 hc] at h1; simp at h1
+        have hk : k ∈ r.names := by
+          apply Classical.byContradiction; intro hc
+          rw [(DBArms.get_eq_none r k).2 hc] at h2; simp at h2
+        have := he.1 n hn
+        have := hd.1 k hk
+        omega
+    subst hnk
+    have hde : d = e := by
+      have := h n
+      simpa [DBArms.get] using this
+    subst hde
+    have hrs : r = s := by
+      apply DBArms.ext r s hd.2 he.2
+      intro m
+      by_cases hm : m = n
+      · subst hm
+        rw [(DBArms.get_eq_none r m).2 hnr, (DBArms.get_eq_none s m).2 hks]
+      · have := h m
+        simpa [DBArms.get, hm] using this
+    rw [hrs]
+
+/-! ### the nameless form of a declaration -/
+
+theorem get_toDBArms (env : List Nat) : ∀ (as : Arms) (m : Nat),
+    (toDBArms env as).get m = (as.get m).map (toDB env)
+  | .nil, m => by simp [toDBArms, DBArms.get, Arms.get]
+  | .cons n t rest, m => by
+    have ih := get_toDBArms env rest m
+    simp only [toDBArms, DBArms.get_insert, Arms.get, ih]
+    split <;> simp
+
+theorem mem_names_toDBArms (env : List Nat) (as : Arms) (m : Nat) :
+    m ∈ (toDBArms env as).names ↔ m ∈ as.names := by
+  have h1 := DBArms.get_eq_none (toDBArms env as) m
+  have h2 := Arms.get_eq_none as m
+  rw [get_toDBArms] at h1
+  simp only [Option.map_eq_none_iff] at h1
+  constructor
+  · intro h; apply Classical.byContradiction; intro hc; exact (h1.1 (h2.2 hc)) h
+  · intro h; apply Classical.byContradiction; intro hc; exact (h2.1 (h1.2 hc)) h
+
+theorem sorted_toDBArms (env : List Nat) : ∀ (as : Arms), as.names.Nodup → (toDBArms env as).Sorted
+  | .nil => by simp [toDBArms, DBArms.Sorted]
+  | .cons n t rest => by
+    intro hn
+    simp only [Arms.names, List.nodup_cons] at hn
+    simp only [toDBArms]
+    apply DBArms.sorted_insert _ _ _ (sorted_toDBArms env rest hn.2)
+    rw [mem_names_toDBArms]
+    exact hn.1
+
+/-- equal nameless forms = equal as maps from names to nameless forms -/
+theorem toDBArms_eq_iff (envL envR : List Nat) (as bs : Arms)
+    (ha : as.names.Nodup) (hb : bs.names.Nodup) :
+    toDBArms envL as = toDBArms envR bs ↔
+      ∀ m, (as.get m).map (toDB envL) = (bs.get m).map (toDB envR) := by
+  constructor
+  · intro h m
+    rw [← get_toDBArms, ← get_toDBArms, h]
+  · intro h
+    apply DBArms.ext _ _ (sorted_toDBArms envL as ha) (sorted_toDBArms envR bs hb)
+    intro m
+    rw [get_toDBArms, get_toDBArms, h]
+
+/-- the pigeonhole step: a duplicate-free list of names inside a list that is not longer fills it -/
+theorem subset_of_nodup_subset_length {l₁ l₂ : List Nat} (h₁ : l₁.Nodup) (hs : l₁ ⊆ l₂)
+    (hl : l₂.length ≤ l₁.length) : l₂ ⊆ l₁ := by
+  intro x hx
+  apply Classical.byContradiction
+  intro hc
+  have hsub : l₁ ⊆ l₂.erase x := by
+    intro y hy
+    have hyx : y ≠ x := fun e => hc (e ▸ hy)
+    exact (List.mem_erase_of_ne hyx).2 (hs hy)
+  have := h₁.length_le_of_subset hsub
+  have hlen : (l₂.erase x).length = l₂.length - 1 := by rw [List.length_erase]; simp [hx]
+  have hpos : 1 ≤ l₂.length := List.length_pos_of_mem hx
+  omega
+
+/-- what the loop of the code establishes (left: number of arms and by-name lookups from the left
+declaration) is agreement as maps (right), for declarations without repeated names -/
+theorem arms_loop_iff (envL envR : List Nat) (as bs : Arms)
+    (ha : as.names.Nodup) (hb : bs.names.Nodup) :
+    (as.length = bs.length ∧
+      ∀ n t, (n, t) ∈ as.toList → ∃ t', bs.get n = some t' ∧ toDB envL t = toDB envR t') ↔
+      ∀ m, (as.get m).map (toDB envL) = (bs.get m).map (toDB envR) := by
+  constructor
+  · rintro ⟨hlen, hall⟩ m
+    cases hg : as.get m with
+    | some t =>
+      obtain ⟨t', h1, h2⟩ := hall m t (Arms.mem_of_get as m t hg)
+      simp [h1, h2]
+    | none =>
+      have hsub : as.names ⊆ bs.names := by
+        intro n hn
+        rw [Arms.names_eq_map] at hn
+        obtain ⟨⟨n', t⟩, hp, rfl⟩ := List.mem_map.1 hn
+        obtain ⟨t', h1, _⟩ := hall n' t hp
+        apply Classical.byContradiction; intro hc
+        rw [(Arms.get_eq_none bs n').2 hc] at h1; simp at h1
+      have hsup := subset_of_nodup_subset_length ha hsub
+        (by rw [← Arms.length_eq, ← Arms.length_eq, hlen]; exact Nat.le_refl _)
+      have hm : m ∉ bs.names := fun h => (Arms.get_eq_none as m).1 hg (hsup h)
+      simp [(Arms.get_eq_none bs m).2 hm]
+  · intro h
+    have hmem : ∀ m, m ∈ as.names ↔ m ∈ bs.names := by
+      intro m
+      have h1 := Arms.get_eq_none as m
+      have h2 := Arms.get_eq_none bs m
+      have hm := h m
+      constructor
+      · intro hx; apply Classical.byContradiction; intro hc
+        rw [h2.2 hc] at hm
+        simp only [Option.map_none, Option.map_eq_none_iff] at hm
+        exact h1.1 hm hx
+      · intro hx; apply Classical.byContradiction; intro hc
+        rw [h1.2 hc] at hm
+        simp only [Option.map_none] at hm
+        have hm := hm.symm
+        simp only [Option.map_eq_none_iff] at hm
+        exact h2.1 hm hx
+    refine ⟨?_, ?_⟩
+    · rw [Arms.length_eq, Arms.length_eq]
+      exact ((List.perm_ext_iff_of_nodup ha hb).2 hmem).length_eq
+    · intro n t hp
+      have hg := Arms.get_of_mem as n t ha hp
+      have hm := h n
+      rw [hg] at hm
+      cases hg' : bs.get n with
+      | none => rw [hg'] at hm; simp at hm
+      | some t' =>
+        rw [hg'] at hm
+        simp only [Option.map_some, Option.some.injEq] at hm
+        exact ⟨t', rfl, hm⟩
+
+/-! ### the comparison decides equality of nameless forms -/
+
+mutual
 /-- The general statement: below any two binder stacks of equal length, the comparison succeeds
-iff the nameless forms are equal.  No naming discipline is needed: later insertions win in the
-maps just as inner binders shadow outer ones in `toDB`. -/
-theorem lubEq_iff_toDB (a b : Ty) (envL envR : List Nat) (h : envL.length = envR.length) :
-    lubEq (ctxOf envL envR) a b = true ↔ toDB envL a = toDB envR b := by
-  induction a generalizing b envL envR with
-  | var x =>
+iff the nameless forms are equal.  No naming discipline is needed for variables: later insertions
+win in the maps just as inner binders shadow outer ones in `toDB`. -/
+theorem lubEq_iff_toDB : ∀ (a b : Ty) (envL envR : List Nat), envL.length = envR.length →
+    WF a = true → WF b = true →
+    (lubEq (ctxOf envL envR) a b = true ↔ toDB envL a = toDB envR b)
+  | .var x, b, envL, envR, h, _, _ => by
     cases b with
     | var y => exact var_case envL envR h x y
     | _ => simp [lubEq, toDB] <;> (split <;> simp)
-  | int => cases b <;> simp [lubEq, toDB] <;> (split <;> simp)
-  | str => cases b <;> simp [lubEq, toDB] <;> (split <;> simp)
-  | unit => cases b <;> simp [lubEq, toDB] <;> (split <;> simp)
-  | prod a1 a2 ih1 ih2 =>
+  | .int, b, envL, envR, _, _, _ => by cases b <;> simp [lubEq, toDB] <;> (split <;> simp)
+  | .str, b, envL, envR, _, _, _ => by cases b <;> simp [lubEq, toDB] <;> (split <;> simp)
+  | .unit, b, envL, envR, _, _, _ => by cases b <;> simp [lubEq, toDB] <;> (split <;> simp)
+  | .prod a1 a2, b, envL, envR, h, wa, wb => by
     cases b with
-    | prod b1 b2 => simp [lubEq, toDB, ih1 b1 envL envR h, ih2 b2 envL envR h]
+    | prod b1 b2 =>
+      simp only [WF, Bool.and_eq_true] at wa wb
+      simp [lubEq, toDB, lubEq_iff_toDB a1 b1 envL envR h wa.1 wb.1,
+        lubEq_iff_toDB a2 b2 envL envR h wa.2 wb.2]
     | var y => simp [lubEq, toDB]; split <;> simp
     | _ => simp [lubEq, toDB]
-  | arr a1 a2 ih1 ih2 =>
+  | .arr a1 a2, b, envL, envR, h, wa, wb => by
     cases b with
-    | arr b1 b2 => simp [lubEq, toDB, ih1 b1 envL envR h, ih2 b2 envL envR h]
+    | arr b1 b2 =>
+      simp only [WF, Bool.and_eq_true] at wa wb
+      simp [lubEq, toDB, lubEq_iff_toDB a1 b1 envL envR h wa.1 wb.1,
+        lubEq_iff_toDB a2 b2 envL envR h wa.2 wb.2]
     | var y => simp [lubEq, toDB]; split <;> simp
     | _ => simp [lubEq, toDB]
-  | thk a1 ih1 =>
+  | .thk a1, b, envL, envR, h, wa, wb => by
     cases b with
-    | thk b1 => simp [lubEq, toDB, ih1 b1 envL envR h]
+    | thk b1 =>
+      simp only [WF] at wa wb
+      simp [lubEq, toDB, lubEq_iff_toDB a1 b1 envL envR h wa wb]
     | var y => simp [lubEq, toDB]; split <;> simp
     | _ => simp [lubEq, toDB]
-  | ret a1 ih1 =>
+  | .ret a1, b, envL, envR, h, wa, wb => by
     cases b with
-    | ret b1 => simp [lubEq, toDB, ih1 b1 envL envR h]
+    | ret b1 =>
+      simp only [WF] at wa wb
+      simp [lubEq, toDB, lubEq_iff_toDB a1 b1 envL envR h wa wb]
     | var y => simp [lubEq, toDB]; split <;> simp
     | _ => simp [lubEq, toDB]
-  | all k x body ih =>
+  | .all k x body, b, envL, envR, h, wa, wb => by
     cases b with
     | all k' x' body' =>
       have h' : (x :: envL).length = (x' :: envR).length := by simp [h]
-      simp [lubEq, toDB, ctxOf_insert envL envR h, ih body' (x :: envL) (x' :: envR) h']
+      simp only [WF] at wa wb
+      simp [lubEq, toDB, ctxOf_insert envL envR h,
+        lubEq_iff_toDB body body' (x :: envL) (x' :: envR) h' wa wb]
     | var y => simp [lubEq, toDB]; split <;> simp
     | _ => simp [lubEq, toDB]
-  | ex k x body ih =>
+  | .ex k x body, b, envL, envR, h, wa, wb => by
     cases b with
     | ex k' x' body' =>
       have h' : (x :: envL).length = (x' :: envR).length := by simp [h]
-      simp [lubEq, toDB, ctxOf_insert envL envR h, ih body' (x :: envL) (x' :: envR) h']
+      simp only [WF] at wa wb
+      simp [lubEq, toDB, ctxOf_insert envL envR h,
+        lubEq_iff_toDB body body' (x :: envL) (x' :: envR) h' wa wb]
     | var y => simp [lubEq, toDB]; split <;> simp
     | _ => simp [lubEq, toDB]
+  | .data as, b, envL, envR, h, wa, wb => by
+    cases b with
+    | data bs =>
+      simp only [WF] at wa wb
+      have na := ((WFArms_iff as).1 wa).1
+      have nb := ((WFArms_iff bs).1 wb).1
+      simp only [lubEq, toDB, Bool.and_eq_true, beq_iff_eq, DB.data.injEq,
+        lubArms_iff as bs envL envR h wa wb, toDBArms_eq_iff envL envR as bs na nb]
+      exact arms_loop_iff envL envR as bs na nb
+    | var y => simp [lubEq, toDB]; split <;> simp
+    | _ => simp [lubEq, toDB]
+  | .codata as, b, envL, envR, h, wa, wb => by
+    cases b with
+    | codata bs =>
+      simp only [WF] at wa wb
+      have na := ((WFArms_iff as).1 wa).1
+      have nb := ((WFArms_iff bs).1 wb).1
+      simp only [lubEq, toDB, Bool.and_eq_true, beq_iff_eq, DB.codata.injEq,
+        lubArms_iff as bs envL envR h wa wb, toDBArms_eq_iff envL envR as bs na nb]
+      exact arms_loop_iff envL envR as bs na nb
+    | var y => simp [lubEq, toDB]; split <;> simp
+    | _ => simp [lubEq, toDB]
+/-- the loop over the left arms: every left arm finds its name on the right, with a type of equal
+nameless form -/
+theorem lubArms_iff : ∀ (as bs : Arms) (envL envR : List Nat), envL.length = envR.length →
+    WFArms as = true → WFArms bs = true →
+    (lubArms (ctxOf envL envR) as bs = true ↔
+      ∀ n t, (n, t) ∈ as.toList → ∃ t', bs.get n = some t' ∧ toDB envL t = toDB envR t')
+  | .nil, bs, envL, envR, _, _, _ => by simp [lubArms, Arms.toList]
+  | .cons n t rest, bs, envL, envR, h, wa, wb => by
+    simp only [WFArms, Bool.and_eq_true] at wa
+    have ihr := lubArms_iff rest bs envL envR h wa.2 wb
+    simp only [lubArms, Bool.and_eq_true, ihr, Arms.toList, List.mem_cons, Prod.mk.injEq]
+    cases hg : bs.get n with
+    | none =>
+      simp only [Bool.false_eq_true, false_and, false_iff]
+      intro hall
+      obtain ⟨t', h1, _⟩ := hall n t (Or.inl ⟨rfl, rfl⟩)
+      rw [hg] at h1
+      cases h1
+    | some t' =>
+      have iht := lubEq_iff_toDB t t' envL envR h wa.1.2 (WF_of_get wb hg)
+      simp only [iht]
+      constructor
+      · rintro ⟨h1, h2⟩ m u (⟨rfl, rfl⟩ | hm)
+        · exact ⟨t', hg, h1⟩
+        · exact h2 m u hm
+      · intro hall
+        refine ⟨?_, fun m u hm => hall m u (Or.inr hm)⟩
+        obtain ⟨t'', h1, h2⟩ := hall n t (Or.inl ⟨rfl, rfl⟩)
+        rw [hg] at h1
+        cases h1
+        exact h2
+end
 
-/-- top level, unconditionally -/
-theorem lubEq_iff_alphaEq (a b : Ty) : lubEq {} a b = true ↔ alphaEq a b = true := by
-  have := lubEq_iff_toDB a b [] [] rfl
+/-- top level, for declarations without repeated names -/
+theorem lubEq_iff_alphaEq (a b : Ty) (wa : WF a = true) (wb : WF b = true) :
+    lubEq {} a b = true ↔ alphaEq a b = true := by
+  have := lubEq_iff_toDB a b [] [] rfl wa wb
   rw [ctxOf_nil] at this
   simp [alphaEq, this]
 
 theorem lub_iff_alpha_pf : ZV.Props.C03.LubStatement.lub_iff_alpha :=
-  fun a b _ _ _ _ => lubEq_iff_alphaEq a b
+  fun a b wa wb _ _ _ _ => lubEq_iff_alphaEq a b wa wb
 
 theorem lub_refl_pf : ZV.Props.C03.LubStatement.lub_refl := by
-  intro a _
-  rw [lubEq_iff_alphaEq]
+  intro a wa _
+  rw [lubEq_iff_alphaEq a a wa wa]
   simp [alphaEq]
+
+theorem lub_not_refl_on_repeated_name_pf : ZV.Props.C03.LubStatement.lub_not_refl_on_repeated_name := by
+  unfold ZV.Props.C03.LubStatement.lub_not_refl_on_repeated_name
+  decide
 
 theorem alpha_equiv_pf : ZV.Props.C03.LubStatement.alpha_equiv := by
   refine ⟨?_, ?_, ?_⟩
@@ -147,6 +517,206 @@ theorem alpha_equiv_pf : ZV.Props.C03.LubStatement.alpha_equiv := by
   · intro a b c h1 h2
     simp only [alphaEq, beq_iff_eq] at h1 h2 ⊢
     exact h1.trans h2
+
+
+/-! ### the specification read without any order of arms -/
+
+/-- agreement as maps = same set of names and, name by name, agreement -/
+theorem maps_agree_iff {β : Type} (f g : Ty → β) (as bs : Arms) :
+    (∀ m, (as.get m).map f = (bs.get m).map g) ↔
+      (∀ n, n ∈ as.names ↔ n ∈ bs.names) ∧
+      (∀ n t u, as.get n = some t → bs.get n = some u → f t = g u) := by
+  constructor
+  · intro h
+    refine ⟨?_, ?_⟩
+    · intro m
+      have h1 := Arms.get_eq_none as m
+      have h2 := Arms.get_eq_none bs m
+      have hm := h m
+      constructor
+      · intro hx; apply Classical.byContradiction; intro hc
+        rw [h2.2 hc] at hm
+        simp only [Option.map_none, Option.map_eq_none_iff] at hm
+        exact h1.1 hm hx
+      · intro hx; apply Classical.byContradiction; intro hc
+        rw [h1.2 hc] at hm
+        simp only [Option.map_none] at hm
+        have hm := hm.symm
+        simp only [Option.map_eq_none_iff] at hm
+        exact h2.1 hm hx
+    · intro n t u h1 h2
+      have hm := h n
+      rw [h1, h2] at hm
+      simpa using hm
+  · rintro ⟨hn, hp⟩ m
+    cases h1 : as.get m with
+    | none =>
+      have : m ∉ bs.names := fun hx => (Arms.get_eq_none as m).1 h1 ((hn m).2 hx)
+      simp [(Arms.get_eq_none bs m).2 this]
+    | some t =>
+      cases h2 : bs.get m with
+      | none =>
+        have hx : m ∈ as.names := Arms.mem_names_of_mem (Arms.mem_of_get as m t h1)
+        exact absurd ((hn m).1 hx) ((Arms.get_eq_none bs m).1 h2)
+      | some u => simp [hp m t u h1 h2]
+
+theorem alpha_decl_spec_pf : ZV.Props.C03.LubStatement.alpha_decl_spec := by
+  intro env₁ env₂ as bs wa wb
+  have na := ((WFArms_iff as).1 wa).1
+  have nb := ((WFArms_iff bs).1 wb).1
+  have key := (toDBArms_eq_iff env₁ env₂ as bs na nb).trans
+    (maps_agree_iff (toDB env₁) (toDB env₂) as bs)
+  exact ⟨by simpa [toDB] using key, by simpa [toDB] using key⟩
+
+theorem alpha_decl_spec_top_pf : ZV.Props.C03.LubStatement.alpha_decl_spec_top := by
+  intro as bs wa wb
+  have := alpha_decl_spec_pf [] [] as bs wa wb
+  simpa [alphaEq] using this
+
+/-! ### permuted arms -/
+
+theorem get_eq_of_perm {as bs : Arms} (hp : as.toList.Perm bs.toList) (_ha : as.names.Nodup)
+    (hb : bs.names.Nodup) (m : Nat) : as.get m = bs.get m := by
+  have hnames : as.names.Perm bs.names := by
+    rw [Arms.names_eq_map, Arms.names_eq_map]; exact hp.map _
+  cases h1 : as.get m with
+  | none =>
+    have : m ∉ bs.names := fun hx => (Arms.get_eq_none as m).1 h1 (hnames.symm.subset hx)
+    exact ((Arms.get_eq_none bs m).2 this).symm
+  | some t =>
+    exact (Arms.get_of_mem bs m t hb (hp.subset (Arms.mem_of_get as m t h1))).symm
+
+theorem armPerm_toDB {a b : Ty} (h : ArmPerm a b) :
+    WF a = true → WF b = true ∧ ∀ env, toDB env a = toDB env b := by
+  induction h with
+  | refl a => exact fun w => ⟨w, fun _ => rfl⟩
+  | trans _ _ ih1 ih2 =>
+    intro w
+    have h1 := ih1 w
+    have h2 := ih2 h1.1
+    exact ⟨h2.1, fun env => (h1.2 env).trans (h2.2 env)⟩
+  | prod _ _ ih1 ih2 =>
+    intro w
+    simp only [WF, Bool.and_eq_true] at w
+    have h1 := ih1 w.1
+    have h2 := ih2 w.2
+    exact ⟨by simp [WF, h1.1, h2.1], fun env => by simp [toDB, h1.2 env, h2.2 env]⟩
+  | arr _ _ ih1 ih2 =>
+    intro w
+    simp only [WF, Bool.and_eq_true] at w
+    have h1 := ih1 w.1
+    have h2 := ih2 w.2
+    exact ⟨by simp [WF, h1.1, h2.1], fun env => by simp [toDB, h1.2 env, h2.2 env]⟩
+  | thk _ ih =>
+    intro w
+    simp only [WF] at w
+    have h1 := ih w
+    exact ⟨by simp [WF, h1.1], fun env => by simp [toDB, h1.2 env]⟩
+  | ret _ ih =>
+    intro w
+    simp only [WF] at w
+    have h1 := ih w
+    exact ⟨by simp [WF, h1.1], fun env => by simp [toDB, h1.2 env]⟩
+  | all _ ih =>
+    intro w
+    simp only [WF] at w
+    have h1 := ih w
+    exact ⟨by simp [WF, h1.1], fun env => by simp [toDB, h1.2 _]⟩
+  | ex _ ih =>
+    intro w
+    simp only [WF] at w
+    have h1 := ih w
+    exact ⟨by simp [WF, h1.1], fun env => by simp [toDB, h1.2 _]⟩
+  | @data_perm as bs hp =>
+    intro w
+    simp only [WF] at w
+    have wa := (WFArms_iff as).1 w
+    have hnames : as.names.Perm bs.names := by
+      rw [Arms.names_eq_map, Arms.names_eq_map]; exact hp.map _
+    have nb : bs.names.Nodup := hnames.nodup wa.1
+    have wb : WFArms bs = true :=
+      (WFArms_iff bs).2 ⟨nb, fun q hq => wa.2 q (hp.symm.subset hq)⟩
+    refine ⟨by simpa [WF] using wb, fun env => ?_⟩
+    simp only [toDB, DB.data.injEq]
+    rw [toDBArms_eq_iff env env as bs wa.1 nb]
+    intro m
+    rw [get_eq_of_perm hp wa.1 nb m]
+  | @codata_perm as bs hp =>
+    intro w
+    simp only [WF] at w
+    have wa := (WFArms_iff as).1 w
+    have hnames : as.names.Perm bs.names := by
+      rw [Arms.names_eq_map, Arms.names_eq_map]; exact hp.map _
+    have nb : bs.names.Nodup := hnames.nodup wa.1
+    have wb : WFArms bs = true :=
+      (WFArms_iff bs).2 ⟨nb, fun q hq => wa.2 q (hp.symm.subset hq)⟩
+    refine ⟨by simpa [WF] using wb, fun env => ?_⟩
+    simp only [toDB, DB.codata.injEq]
+    rw [toDBArms_eq_iff env env as bs wa.1 nb]
+    intro m
+    rw [get_eq_of_perm hp wa.1 nb m]
+  | data_head _ ih =>
+    intro w
+    simp only [WF, WFArms, Bool.and_eq_true] at w
+    have h1 := ih w.1.2
+    have hn := w.1.1
+    exact ⟨by simp only [WF, WFArms, h1.1, hn, w.2, Bool.and_self],
+      fun env => by simp [toDB, toDBArms, h1.2 env]⟩
+  | codata_head _ ih =>
+    intro w
+    simp only [WF, WFArms, Bool.and_eq_true] at w
+    have h1 := ih w.1.2
+    have hn := w.1.1
+    exact ⟨by simp only [WF, WFArms, h1.1, hn, w.2, Bool.and_self],
+      fun env => by simp [toDB, toDBArms, h1.2 env]⟩
+
+theorem arm_order_irrelevant_pf : ZV.Props.C03.LubStatement.arm_order_irrelevant := by
+  intro a b wa h
+  have hb := armPerm_toDB h wa
+  rw [lubEq_iff_alphaEq a b wa hb.1, lubEq_iff_alphaEq b a hb.1 wa]
+  simp [alphaEq, hb.2 []]
+
+/-! ### the comparison is by name, not by position -/
+
+mutual
+/-- The positional variant, for `positional_comparison_differs` only: as `lubEq`, but the arms of
+two declarations are compared position by position (after the check of the number of arms and of
+the sets of names) instead of by name.  This is NOT what the code does. -/
+def lubEqZip (c : Ctx) : Ty → Ty → Bool
+  | .var a, .var b =>
+    match lookup c.lhs a, lookup c.rhs b with
+    | some l, some r => l == r
+    | none, none => a == b
+    | _, _ => false
+  | .int, .int => true
+  | .str, .str => true
+  | .unit, .unit => true
+  | .prod a b, .prod a' b' => lubEqZip c a a' && lubEqZip c b b'
+  | .thk b, .thk b' => lubEqZip c b b'
+  | .ret a, .ret a' => lubEqZip c a a'
+  | .arr a b, .arr a' b' => lubEqZip c a a' && lubEqZip c b b'
+  | .all k x body, .all k' x' body' => k == k' && lubEqZip (c.insert x x') body body'
+  | .ex k x body, .ex k' x' body' => k == k' && lubEqZip (c.insert x x') body body'
+  | .data as, .data bs =>
+    as.length == bs.length && as.names.all (bs.names.contains ·) && lubArmsZip c as bs
+  | .codata as, .codata bs =>
+    as.length == bs.length && as.names.all (bs.names.contains ·) && lubArmsZip c as bs
+  | _, _ => false
+def lubArmsZip (c : Ctx) : Arms → Arms → Bool
+  | .nil, .nil => true
+  | .cons _ t rest, .cons _ u rest' => lubEqZip c t u && lubArmsZip c rest rest'
+  | _, _ => false
+end
+
+theorem positional_comparison_differs_pf : ZV.Props.C03.LubStatement.positional_comparison_differs := by
+  unfold ZV.Props.C03.LubStatement.positional_comparison_differs
+  refine ⟨by decide, by decide, ?_, by decide, by decide, by decide, by decide, by decide⟩
+  intro n; simp [or_comm]
+
+/-- the positional variant accepts the pair that `lubEq` (and the specification) tell apart -/
+theorem positional_variant_accepts :
+    lubEqZip {} ZV.Props.C03.LubStatement.personL ZV.Props.C03.LubStatement.personR = true := by
+  decide
 
 theorem permuted_binders_differ_pf : ZV.Props.C03.LubStatement.permuted_binders_differ := by
   intro k₁ k₂ x y x' y' hxy _
@@ -162,6 +732,12 @@ end ZV.Lub
 
 #print axioms ZV.Lub.lub_iff_alpha_pf
 #print axioms ZV.Lub.lub_refl_pf
+#print axioms ZV.Lub.lub_not_refl_on_repeated_name_pf
 #print axioms ZV.Lub.alpha_equiv_pf
+#print axioms ZV.Lub.alpha_decl_spec_pf
+#print axioms ZV.Lub.alpha_decl_spec_top_pf
+#print axioms ZV.Lub.arm_order_irrelevant_pf
+#print axioms ZV.Lub.positional_comparison_differs_pf
+#print axioms ZV.Lub.positional_variant_accepts
 #print axioms ZV.Lub.permuted_binders_differ_pf
 #print axioms ZV.Lub.bound_vs_free_differ_pf
